@@ -6,6 +6,7 @@ import (
 	"errors"
 	"fmt"
 	"reflect"
+	"runtime"
 	"sort"
 	"strings"
 	"sync"
@@ -422,6 +423,23 @@ func (c *connectionContext) pagesFromEdges(edges []Edge, limit int) (pages []str
 	return pages
 }
 
+// goContained runs f on the group like g.Go and turns a panic of f (a filter
+// or sort function of the schema's author, fed with the client's text) into the
+// group's error: a panic on these goroutines would otherwise end the process.
+func goContained(g *errgroup.Group, f func() error) {
+	g.Go(func() (err error) {
+		defer func() {
+			if p := recover(); p != nil {
+				const size = 64 << 10
+				buf := make([]byte, size)
+				buf = buf[:runtime.Stack(buf, false)]
+				err = fmt.Errorf("graphql: panic: %v\n%s", p, buf)
+			}
+		}()
+		return f()
+	})
+}
+
 type SafeBatchNodesToKeep struct {
 	nodesToKeep []bool
 	mux         sync.Mutex
@@ -432,7 +450,7 @@ func (c *connectionContext) applyBatchTextFilter(ctx context.Context, nodes []in
 	m := &sync.Mutex{}
 	for unscopeName, unscopedFilterField := range batchedFields {
 		name, filterField := unscopeName, unscopedFilterField
-		g.Go(func() error {
+		goContained(g, func() error {
 			texts, err := graphql.SafeExecuteBatchResolver(ctx, filterField, nodes, userArgs, nil)
 			if err != nil {
 				return err
@@ -502,7 +520,7 @@ func (c *connectionContext) applyTextFilterNotBatchedExpensive(ctx context.Conte
 	g, ctx := errgroup.WithContext(ctx)
 	for unscopedI, unscopedNode := range nodes {
 		i, node := unscopedI, unscopedNode
-		g.Go(func() error {
+		goContained(g, func() error {
 			keep, err := c.checkFilters(ctx, node, searchTokens, filterFields, filterType, userArgs)
 			nodesToKeep[i] = keep
 			return err
@@ -575,17 +593,17 @@ func (c *connectionContext) applyTextFilter(ctx context.Context, nodes []interfa
 	batchedNodesToKeep := make([]bool, len(nodes))
 
 	if len(filterTextFieldsNotBatched) > 0 {
-		g.Go(func() error {
+		goContained(g, func() error {
 			return c.applyTextFilterNotBatched(ctx, nodes, searchTokens, args.FilterType, filterTextFieldsNotBatched, nodesToKeep, userArgs)
 		})
 	}
 	if len(filterTextFieldsNotBatchedExpensive) > 0 {
-		g.Go(func() error {
+		goContained(g, func() error {
 			return c.applyTextFilterNotBatchedExpensive(ctx, nodes, searchTokens, args.FilterType, filterTextFieldsNotBatchedExpensive, expensiveNodesToKeep, userArgs)
 		})
 	}
 	if len(filterTextFieldsBatched) > 0 {
-		g.Go(func() error {
+		goContained(g, func() error {
 			return c.applyBatchTextFilter(ctx, nodes, searchTokens, args.FilterType, filterTextFieldsBatched, batchedNodesToKeep, userArgs)
 		})
 	}
@@ -650,7 +668,7 @@ func (c *connectionContext) applySort(ctx context.Context, nodes []interface{}, 
 		for unscopedI, unscopedNode := range nodes {
 			i, node := unscopedI, unscopedNode
 			if sortField.Expensive {
-				g.Go(func() error {
+				goContained(g, func() error {
 					sortValue, err := getSortReference(ctx, sortField, node, i, userArgs)
 					if err != nil {
 						return err
